@@ -115,7 +115,7 @@ def hmac_shape(ctx, rep, rule):
     if body is None:
         return
     prov = flow.Prov(body)
-    ups = [b for b in sorted(body.calls(), key=lambda b: b.idx) if (b.term["callee"].get("path") or "").endswith("Digest::update")]
+    ups = [b for b in sorted(body.calls(), key=lambda b: b.idx) if _is_update(b.term["callee"].get("path") or "")]
     news = [b for b in body.calls() if (b.term["callee"].get("path") or "").endswith("Digest::new")]
     key = "DigestAuth::sign"
     if len(ups) != 6 or len(news) != 2:
@@ -313,6 +313,11 @@ def key_dispatch(ctx, rep, rule):
                           "key type 0xc0 is installed with %s" % called, body.loc(), obligation=True)
 
 
+def _is_update(path):
+    # hasher.update(data) and the builder form D::new().chain_update(data): both take (hasher, data)
+    return path.endswith("Digest::update") or path.endswith("Digest::chain_update")
+
+
 def key_chain(ctx, rep, rule):
     """as_password = password_to_master . as_master ; as_master = localize then store; canonical shapes of the two digests."""
     facts = ctx.facts
@@ -412,7 +417,7 @@ def key_chain(ctx, rep, rule):
     b = _body(ctx, rep, rule, pre + "localize")
     if b is not None:
         p = flow.Prov(b)
-        ups = [x for x in sorted(b.calls(), key=lambda x: x.idx) if (x.term["callee"].get("path") or "").endswith("Digest::update")]
+        ups = [x for x in sorted(b.calls(), key=lambda x: x.idx) if _is_update(x.term["callee"].get("path") or "")]
         args = [p.operand(x.term["args"][1]) for x in ups]
         want = [("arg", 2), ("arg", 3), ("arg", 2)]
         # no short cut: every way out of localize runs the digest (an early return for a special engine id or key would hand
@@ -438,7 +443,7 @@ def key_chain(ctx, rep, rule):
     b = _body(ctx, rep, rule, pre + "password_to_master")
     if b is not None:
         p = flow.Prov(b)
-        ups = [x for x in sorted(b.calls(), key=lambda x: x.idx) if (x.term["callee"].get("path") or "").endswith("Digest::update")]
+        ups = [x for x in sorted(b.calls(), key=lambda x: x.idx) if _is_update(x.term["callee"].get("path") or "")]
         loops = cfg.natural_loops(b)
         inloop = set()
         for h, bl in loops.items():
@@ -457,7 +462,7 @@ def key_chain(ctx, rep, rule):
                 kinds.append("other:" + flow.fmt(a)[:60])
         # the whole copies may be fed from a closure handed to an iterator consumer: repeat(password).take(n).for_each(|c| update(c))
         for c in facts.closures_of(b.path):
-            cups = [x for x in c.calls() if (x.term["callee"].get("path") or "").endswith("Digest::update")]
+            cups = [x for x in c.calls() if _is_update(x.term["callee"].get("path") or "")]
             if not cups:
                 continue
             feed = cells.closure_feed(facts, c)
@@ -478,7 +483,20 @@ def key_chain(ctx, rep, rule):
                           "MEGABYTE/len whole copies (in the loop) and then the first MEGABYTE%%len octets" % kinds, b.loc(), obligation=True)
         # n and rem
         t_n = [p.rvalue(st["rv"]) for blk in b.live_blocks() for st in blk.stmts if st["k"] == "assign" and st["rv"]["k"] == "bin" and st["rv"]["op"] in ("Div", "Rem")]
-        okn = any(t[1] == "Div" and t[2] == ("const", 1048576) for t in t_n) and any(t[1] == "Rem" and t[2] == ("const", 1048576) for t in t_n)
+        M_ = ("const", 1048576)
+        # the remainder as 2^20 % len, or as 2^20 - (2^20 / len) * len
+        t_s = [p.rvalue(st["rv"]) for blk in b.live_blocks() for st in blk.stmts if st["k"] == "assign" and st["rv"]["k"] == "bin" and
+               st["rv"]["op"] in ("Sub", "SubWithOverflow")]
+        def _is_div(x):
+            while x[0] == "f":
+                x = x[1]
+            return x[0] == "bin" and x[1] == "Div" and x[2] == M_
+        def _is_prod(x):
+            while x[0] == "f":
+                x = x[1]
+            return x[0] == "bin" and x[1] in ("Mul", "MulWithOverflow") and (_is_div(x[2]) or _is_div(x[3]))
+        rem_alt = any(t[2] == M_ and _is_prod(t[3]) for t in t_s)
+        okn = any(t[1] == "Div" and t[2] == M_ for t in t_n) and (any(t[1] == "Rem" and t[2] == M_ for t in t_n) or rem_alt)
         rep.check(rule, "DigestAuth::password_to_master|n,rem", okn, "n = 2^20 / len, rem = 2^20 % len", "n / rem are computed as %s" % [flow.fmt(t) for t in t_n], b.loc(),
                   obligation=True)
     # util entry points
@@ -759,7 +777,7 @@ def priv_layout(ctx, rep, rule):
         rep.check(rule, "%s::encrypt|salt layout" % nm, got == want, "priv_params = %s" % want,
                   "privacy parameters are assembled as %s, the RFC layout is %s (arg3 = engine boots, arg4 = engine time)" % (got, want), body.loc(), obligation=True)
         # cipher construction
-        nf = [b for b in body.calls() if (b.term["callee"].get("path") or "").endswith("KeyIvInit::new_from_slices")]
+        nf = [b for b in body.calls() if (b.term["callee"].get("path") or "").endswith(("KeyIvInit::new_from_slices", "KeyIvInit::new"))]
         if len(nf) == 1:
             a = [prov.operand(x) for x in nf[0].term["args"]]
             rep.check(rule, "%s::encrypt|cipher key" % nm, fp(a[0]) == ("arg1", "key"), "self.key", "cipher keyed with %s" % flow.fmt(a[0]), body.loc(nf[0].term["line"]),
@@ -877,7 +895,7 @@ def _des_iv(rep, rule, body, prov, name, salt_path):
     ok = fp(a[0]) == salt_path and fp(a[1]) == ("arg1", "pre_iv")
     rep.check(rule, name + "|iv", ok, "IV = salt xor pre-IV", "the IV combines %s with %s (RFC 3414: salt xor pre-IV)" % (flow.fmt(a[0])[:60], flow.fmt(a[1])[:60]),
               body.loc(zips[0].term["line"]), obligation=True)
-    nf = [b for b in body.calls() if (b.term["callee"].get("path") or "").endswith("KeyIvInit::new_from_slices")]
+    nf = [b for b in body.calls() if (b.term["callee"].get("path") or "").endswith(("KeyIvInit::new_from_slices", "KeyIvInit::new"))]
     if nf:
         k = prov.operand(nf[0].term["args"][0])
         rep.check(rule, name + "|cipher key", fp(k) == ("arg1", "key"), "self.key", "cipher keyed with %s" % flow.fmt(k), body.loc(nf[0].term["line"]), obligation=True)
